@@ -35,7 +35,7 @@ CONSTANTS N,           \* states are 0..N-1
           Containers,  \* subset of AllContainers explored as a state variable
           Emit         \* TRUE: print one CASE line per (C, thr)
 
-AllContainers == {"ndarray", "csr_matrix", "coo_matrix", "lil_matrix"}
+AllContainers == {"ndarray", "csr_matrix", "coo_matrix", "lil_matrix", "csr_array", "coo_array"}   \* (matrices and sparse arrays are different classes)
 
 ASSUME /\ N \in Nat \ {0}
        /\ Thresholds \subseteq (Nat \ {0})
